@@ -79,8 +79,6 @@ fn bundle_typed_component(sel: u64, out: &mut Out) {
     }
 }
 
-const SPAWNS_UNKNOWN: usize = usize::MAX / 2;
-
 fn type_index(id: TypeId) -> u64 {
     let ids = [
         TypeId::of::<C0>(),
@@ -526,9 +524,10 @@ impl Engine {
                 if !self.live_pub(w) {
                     return vec![8];
                 }
-                // after a replay that panicked the rest of the commands is still in the buffer: their number is not tracked
-                let spawns_known = self.cmd_spawns[cb] < SPAWNS_UNKNOWN;
-                let n = if spawns_known { self.cmd_spawns[cb] } else { 0 };
+                // after a replay that panicked the rest of its commands is still in the buffer: cmd_invalid stays set, and
+                // the oracles below keep quiet (the handle bookkeeping is unchanged: spawns recorded since are counted)
+                let spawns_known = !self.cmd_invalid[cb];
+                let n = self.cmd_spawns[cb];
                 self.cmd_spawns[cb] = 0;
                 let ncmds = self.cmd_counts[cb];
                 self.cmd_counts[cb] = 0;
@@ -561,14 +560,14 @@ impl Engine {
                         self.emit_c(&mut obs, 0, &spawned, out);
                     }
                     Err(e) => {
-                        if spawns_known && !self.cmd_invalid[cb] {
+                        if spawns_known {
                             out.flag("C11: the replay panicked although every recorded bundle was valid (applying the same commands directly does not panic)".to_string());
                         }
                         self.poisoned[w] = true;
                         // the commands after the one that panicked stay in the buffer and run with the next run_on
                         // (possibly on the other world): the shadow of that world must be re-read then
                         self.cmd_counts[cb] = ncmds.max(1);
-                        self.cmd_spawns[cb] = SPAWNS_UNKNOWN;
+                        self.cmd_invalid[cb] = true;
                         for b in &spawned {
                             self.handles.push(Entity::from_bits(*b).unwrap());
                         }
